@@ -13,6 +13,8 @@ import (
 	"sort"
 	"strings"
 	"sync"
+
+	"golang.org/x/tools/go/ssa"
 )
 
 type propRunner struct {
@@ -47,6 +49,7 @@ func main() {
 	list := flag.Bool("list", false, "list registered properties")
 	dumpCalls := flag.String("dump-calls", "", "debug: print the call facts collected from this entry point")
 	dumpWrites := flag.String("dump-writes", "", "debug: print the input writes reachable from this entry point")
+	dumpSinks := flag.String("dump-sinks", "", "debug: print panic sinks reachable from this entry point")
 	dumpGuards := flag.String("dump-guards", "", "debug: print the guards collected from this entry point")
 	flag.Parse()
 	// go/packages resolves "go" through this process's PATH: force the toolchain that satisfies /repo's go directive
@@ -129,6 +132,29 @@ func main() {
 		}
 		for _, w := range ge.InputWrites(fn) {
 			fmt.Printf("%s  %s %s  [%s]  via %s\n", p.Pos(w.Fact.Pos), w.Fact.Name, w.Target, w.Why, strings.Join(w.Fact.Chain, ">"))
+		}
+		return
+	}
+	if *dumpSinks != "" {
+		p, err := Load(LoadConfig{Repo: *repo, GOARCH: *arch})
+		if err != nil {
+			fmt.Println("load:", err)
+			os.Exit(2)
+		}
+		ge := NewGuardEngine(p, 6)
+		fn := p.Func(*dumpSinks)
+		if fn == nil {
+			fmt.Println("entry not found")
+			os.Exit(2)
+		}
+		for _, s := range ge.Sinks(fn, nil, nil, nil, 0, map[*ssa.Function]int{}) {
+			ok, why := s.Discharged()
+			fmt.Printf("%s %v %s operand=%s base=%s(%d) %s\n", p.Pos(s.Pos), ok, s.Kind, s.Operand, s.Base, s.BaseLen, why)
+			if !ok {
+				for _, c := range s.Conds {
+					fmt.Printf("      given %s\n", c)
+				}
+			}
 		}
 		return
 	}
